@@ -216,7 +216,10 @@ D_Ops    == (Clean /\ phase = "open") =>
                     /\ r.valid = OpValid(ops, i)
 D_Msg    == (~taint /\ AllC) => dmsg = ""
 D_NoErr  == (Clean /\ act.n \notin {"Init", "CommitEnd"}) => act.ok
-D_CommitErr == (Clean /\ act.n = "CommitEnd") => (act.ok <=> \A x \in 1..Len(rem) : rem[x].ok)
+\* Commit returns the error of the LAST Bind / Evict call it made (a later success overwrites an earlier failure)
+D_CommitErr == (Clean /\ act.n = "CommitEnd") =>
+                 LET F == {x \in 1..Len(rem) : rem[x].c \in {"bind", "evict"}}
+                 IN act.ok <=> (F = {} \/ rem[CHOOSE x \in F : \A y \in F : y <= x].ok)
 \* the model's own initial state (fold of AddTask in pod order, declarative counters) equals the real snapshot
 D_Init   == (l = l0 + 1) =>
               /\ node = [n \in Nodes |-> FoldInit(n, EmptyNode(n), {p \in Pods : cfg.pods[p].node = n /\ ActiveUsed(cfg.pods[p].st)})]
